@@ -100,6 +100,27 @@ def test_sched_deadlock():
     assert st["deadlocks"] > 0, st
 
 
+def test_line_level_points():
+    # an unsynchronised read-modify-write on a plain attribute (no interposer): invisible to attribute-level points,
+    # found when every source line of this file is a scheduling point
+    class Plain:
+        v = 0
+
+    def harness(s):
+        b = Plain()
+
+        def inc():
+            x = b.v
+            b.v = x + 1
+        s.spawn(inc, "a")
+        s.spawn(inc, "b")
+        return lambda: b.v
+    coarse = vsched.explore_schedules(harness, 1)
+    assert set(coarse["outcomes"]) == {"2"}, coarse
+    fine = vsched.explore_schedules(harness, 1, line_root=__file__)
+    assert set(fine["outcomes"]) == {"1", "2"}, fine
+
+
 def test_replay_divergence():
     try:
         ch = kernel.Chooser([5])
